@@ -96,6 +96,14 @@ class Func:
             self._index()
         return self._parent
 
+    def in_lambda(self, n):
+        """is node n part of the body of a lambda expression (its returns are not returns of this function)"""
+        return any(a['k'] == 'lambda' for a in self.ancestors(n))
+
+    def returns(self, with_value=True):
+        """return statements of the function itself (not of lambdas defined in it)"""
+        return [n for n in self.nodes.values() if n['k'] == 'ret' and (n.get('e') is not None or not with_value) and not self.in_lambda(n)]
+
     def ancestors(self, n):
         i = self.parent.get(n['i'])
         while i is not None:
